@@ -181,14 +181,7 @@ theorem flags_of_clean {p : Point} (hf : p.flags ≤ 1) : (flagged p = true → 
   · intro h; omega
   · intro h; simp at h; omega
 
-theorem exs_of_exOk {p : Point} (h : p.exOk = true) :
-    p.exemplars.all Exemplar.clean = true ∧ (flagged p = true → p.exemplars = []) := by
-  unfold Point.exOk at h
-  by_cases hf : flagged p = true
-  · simp only [hf, if_true, List.isEmpty_iff] at h
-    exact ⟨by simp [h], fun _ => h⟩
-  · simp only [hf] at h
-    exact ⟨by simpa using h, fun h' => absurd h' hf⟩
+theorem exs_of_exOk {p : Point} (h : p.exOk = true) : p.exemplars.all Exemplar.clean = true := h
 
 theorem attrs_of_base {p : Point} (hc : p.base = true) : p.attrs.clean = true ∧ p.flags ≤ 1 := by
   simp only [Point.base, Bool.and_eq_true, decide_eq_true_eq] at hc
@@ -221,15 +214,24 @@ theorem convNumber_eq (p : Point) (pt : SPoint) (h : p.vt ≤ 2) :
     · simp [h0]
     · simp only [h0]; rfl
 
-theorem numValueInto_spec (p : Point) (old : SPValue) (hval : p.vt = 1 ∨ p.vt = 2) :
+theorem numValueInto_spec (p : Point) (old : SPValue) (hval : p.vt = 1 ∨ p.vt = 2 ∨ flagged p = true) :
     numValueInto p old = (if flagged p then .none else if p.vt = 1 then .int p.v else .dbl p.v) := by
   simp only [numValueInto]
   by_cases hf : flagged p = true
   · simp [hf]
   · simp only [hf]
-    rcases hval with h1 | h2
+    rcases hval with h1 | h2 | h3
     · simp [h1]
     · cases old <;> simp [h2, setF_eq]
+    · exact absurd h3 hf
+
+theorem cleanNum_val {p : Point} (h : (p.vt == 1 || p.vt == 2 || (p.vt == 0 && flagged p)) = true) :
+    (p.vt = 1 ∨ p.vt = 2 ∨ flagged p = true) ∧ p.vt ≤ 2 := by
+  simp only [Bool.or_eq_true, Bool.and_eq_true, beq_iff_eq] at h
+  rcases h with (h | h) | h
+  · exact ⟨Or.inl h, by omega⟩
+  · exact ⟨Or.inr (Or.inl h), by omega⟩
+  · exact ⟨Or.inr (Or.inr h.2), by omega⟩
 
 /-- the record written for a number point -/
 def numRecord (p : Point) (st : WState) : SRecord :=
@@ -248,34 +250,43 @@ theorem writeNumeric_cons (p : Point) (ps : List Point) (st : WState) (h1 : p.vt
 theorem numRecord_spec (p : Point) (st : WState) (rid : ResId) (sid : ScopeId)
     (m : Metric) (ht : m.type = .gauge ∨ m.type = .sum) (hc : p.cleanNum = true) (hs : Shows st.cur rid sid m) :
     pointOfRecord (numRecord p st) = .ok (dataPoint rid sid m p).sortExAttrs := by
-  simp only [Point.cleanNum, Bool.and_eq_true, Bool.or_eq_true, beq_iff_eq] at hc
-  obtain ⟨⟨hbase, hexok⟩, hval⟩ := hc
+  simp only [Point.cleanNum, Bool.and_eq_true] at hc
+  obtain ⟨⟨hbase, hexok⟩, hval0⟩ := hc
+  have hval := (cleanNum_val hval0).1
   have hex := exs_of_exOk hexok
   have hat := attrs_of_base hbase
   have hnv := numValueInto_spec p st.cur.point.value hval
   let pt1 : SPoint := { st.cur.point with ts := p.ts, start := p.start, value := numValueInto p st.cur.point.value }
-  have hx := pointWithEx_spec p.exemplars st.tmp pt1 hex.1
+  have hx := pointWithEx_spec p.exemplars st.tmp pt1 hex
   have ha := attrs_roundtrip p.attrs st.cur.attrs hat.1
   have hfl := flags_of_clean hat.2
   have hsh : Shows (numRecord p st) rid sid m := hs
   by_cases hf : flagged p = true
   · have hv0 : (numRecord p st).point.value = .none := by
       simp only [numRecord, pointWithEx_value, hnv, hf, if_true]
+    have he : exemplarsToOtlp (numRecord p st).point.exemplars = .ok ((numRecord p st).point.exemplars.map exemplarBack) := by
+      simpa [numRecord] using hx.1
     have hq : pointToOtlp m.type (numRecord p st).metric (numRecord p st).attrs (numRecord p st).point
         = .ok { attrs := (numRecord p st).attrs.toOtlp, start := (numRecord p st).point.start,
-                ts := (numRecord p st).point.ts, flags := 1 } := by
-      rcases ht with h | h <;> simp [pointToOtlp, h, hv0]
+                ts := (numRecord p st).point.ts, flags := 1,
+                exemplars := (numRecord p st).point.exemplars.map exemplarBack } := by
+      rcases ht with h | h <;> simp [pointToOtlp, h, hv0, he, Except.map]
     refine pointOfRecord_of_shows _ rid sid m p _ hsh hq ?_ ?_ ?_ ?_ ?_ ?_
     · simpa [numRecord] using ha
     · simp [numRecord]
     · simp [numRecord]
     · simp [hfl.1 hf]
     · rw [nrv_value _ _ rfl]; simp [pointValue, hf]
-    · intro _; simp [hex.2 hf]
+    · intro _; simpa [numRecord] using hx.2
   · have hf' : flagged p = false := by simpa using hf
     have he : exemplarsToOtlp (numRecord p st).point.exemplars = .ok ((numRecord p st).point.exemplars.map exemplarBack) := by
       simpa [numRecord] using hx.1
-    rcases hval with h1 | h2
+    have hval' : p.vt = 1 ∨ p.vt = 2 := by
+      rcases hval with h | h | h
+      · exact Or.inl h
+      · exact Or.inr h
+      · exact absurd h hf
+    rcases hval' with h1 | h2
     · have hv0 : (numRecord p st).point.value = .int p.v := by
         simp only [numRecord, pointWithEx_value, hnv, hf, h1, if_true]; simp
       have hq : pointToOtlp m.type (numRecord p st).metric (numRecord p st).attrs (numRecord p st).point
@@ -312,8 +323,8 @@ theorem numRecord_spec (p : Point) (st : WState) (rid : ResId) (sid : ScopeId)
       · intro _; simpa [numRecord] using hx.2
 
 theorem cleanNum_vt {p : Point} (h : p.cleanNum = true) : p.vt ≤ 2 ∧ ∀ e ∈ p.exemplars, e.vt ≤ 2 := by
-  simp only [Point.cleanNum, Bool.and_eq_true, Bool.or_eq_true, beq_iff_eq] at h
-  exact ⟨by rcases h.2 with h | h <;> omega, clean_vt (exs_of_exOk h.1.2).1⟩
+  simp only [Point.cleanNum, Bool.and_eq_true] at h
+  exact ⟨(cleanNum_val h.2).2, clean_vt (exs_of_exOk h.1.2)⟩
 
 theorem writeNumeric_spec (rid : ResId) (sid : ScopeId) (m : Metric) (ht : m.type = .gauge ∨ m.type = .sum) :
     ∀ (ps : List Point) (st : WState), (∀ p ∈ ps, p.cleanNum = true) → st.inv → Shows st.cur rid sid m →
@@ -422,7 +433,7 @@ theorem histRecord_spec (p : Point) (st : WState) (rid : ResId) (sid : ScopeId) 
   have hat := attrs_of_base hbase
   have hnv := histValueInto_spec p st.cur.point.value
   let pt1 : SPoint := { st.cur.point with ts := p.ts, start := p.start, value := histValueInto p st.cur.point.value }
-  have hx := pointWithEx_spec p.exemplars st.tmp pt1 hex.1
+  have hx := pointWithEx_spec p.exemplars st.tmp pt1 hex
   have ha := attrs_roundtrip p.attrs st.cur.attrs hat.1
   have hfl := flags_of_clean hat.2
   have hb := setFSlice_eq st.cur.metric.bounds p.bounds
@@ -431,17 +442,20 @@ theorem histRecord_spec (p : Point) (st : WState) (rid : ResId) (sid : ScopeId) 
   by_cases hf : flagged p = true
   · have hv0 : (histRecord p st).point.value = .none := by
       simp only [histRecord, pointWithEx_value, hnv, hf, if_true]
+    have he : exemplarsToOtlp (histRecord p st).point.exemplars = .ok ((histRecord p st).point.exemplars.map exemplarBack) := by
+      simpa [histRecord] using hx.1
     have hq : pointToOtlp m.type (histRecord p st).metric (histRecord p st).attrs (histRecord p st).point
         = .ok { attrs := (histRecord p st).attrs.toOtlp, start := (histRecord p st).point.start,
-                ts := (histRecord p st).point.ts, flags := 1 } := by
-      simp [pointToOtlp, ht, hv0]
+                ts := (histRecord p st).point.ts, flags := 1,
+                exemplars := (histRecord p st).point.exemplars.map exemplarBack } := by
+      simp [pointToOtlp, ht, hv0, he, Except.map]
     refine pointOfRecord_of_shows _ rid sid m p _ hsh hq ?_ ?_ ?_ ?_ ?_ ?_
     · simpa [histRecord] using ha
     · simp [histRecord]
     · simp [histRecord]
     · simp [hfl.1 hf]
     · rw [nrv_value _ _ rfl]; simp [pointValue, hf]
-    · intro _; simp [hex.2 hf]
+    · intro _; simpa [histRecord] using hx.2
   · have hf' : flagged p = false := by simpa using hf
     have hv0 : (histRecord p st).point.value = .hist (histOf p) := by
       simp only [histRecord, pointWithEx_value, hnv, hf]; simp
@@ -464,7 +478,7 @@ theorem histRecord_spec (p : Point) (st : WState) (rid : ResId) (sid : ScopeId) 
 theorem cleanHist_ok {p : Point} (h : p.cleanHist = true) :
     (flagged p = true ∨ p.buckets.length = p.bounds.length + 1) ∧ ∀ e ∈ p.exemplars, e.vt ≤ 2 := by
   simp only [Point.cleanHist, Bool.and_eq_true, Bool.or_eq_true, beq_iff_eq] at h
-  exact ⟨h.2, clean_vt (exs_of_exOk h.1.2).1⟩
+  exact ⟨h.2, clean_vt (exs_of_exOk h.1.2)⟩
 
 theorem writeHistogram_spec (rid : ResId) (sid : ScopeId) (m : Metric) (ht : m.type = .hist) :
     ∀ (ps : List Point) (st : WState), (∀ p ∈ ps, p.cleanHist = true) → st.inv → Shows st.cur rid sid m →
@@ -549,24 +563,27 @@ theorem expRecord_spec (p : Point) (st : WState) (rid : ResId) (sid : ScopeId) (
   have hnv : expValueInto p st.cur.point.value = (if flagged p then .none else .exp (expOf p)) := by
     simp only [expValueInto, expInto_eq]
   let pt1 : SPoint := { st.cur.point with ts := p.ts, start := p.start, value := expValueInto p st.cur.point.value }
-  have hx := pointWithEx_spec p.exemplars st.tmp pt1 hex.1
+  have hx := pointWithEx_spec p.exemplars st.tmp pt1 hex
   have ha := attrs_roundtrip p.attrs st.cur.attrs hat.1
   have hfl := flags_of_clean hat.2
   have hsh : Shows (expRecord p st) rid sid m := hs
   by_cases hf : flagged p = true
   · have hv0 : (expRecord p st).point.value = .none := by
       simp only [expRecord, pointWithEx_value, hnv, hf, if_true]
+    have he : exemplarsToOtlp (expRecord p st).point.exemplars = .ok ((expRecord p st).point.exemplars.map exemplarBack) := by
+      simpa [expRecord] using hx.1
     have hq : pointToOtlp m.type (expRecord p st).metric (expRecord p st).attrs (expRecord p st).point
         = .ok { attrs := (expRecord p st).attrs.toOtlp, start := (expRecord p st).point.start,
-                ts := (expRecord p st).point.ts, flags := 1 } := by
-      simp [pointToOtlp, ht, hv0]
+                ts := (expRecord p st).point.ts, flags := 1,
+                exemplars := (expRecord p st).point.exemplars.map exemplarBack } := by
+      simp [pointToOtlp, ht, hv0, he, Except.map]
     refine pointOfRecord_of_shows _ rid sid m p _ hsh hq ?_ ?_ ?_ ?_ ?_ ?_
     · simpa [expRecord] using ha
     · simp [expRecord]
     · simp [expRecord]
     · simp [hfl.1 hf]
     · rw [nrv_value _ _ rfl]; simp [pointValue, hf]
-    · intro _; simp [hex.2 hf]
+    · intro _; simpa [expRecord] using hx.2
   · have hf' : flagged p = false := by simpa using hf
     have hv0 : (expRecord p st).point.value = .exp (expOf p) := by
       simp only [expRecord, pointWithEx_value, hnv, hf]; simp
@@ -588,7 +605,7 @@ theorem expRecord_spec (p : Point) (st : WState) (rid : ResId) (sid : ScopeId) (
 
 theorem cleanExp_ok {p : Point} (h : p.cleanExp = true) : ∀ e ∈ p.exemplars, e.vt ≤ 2 := by
   simp only [Point.cleanExp, Bool.and_eq_true] at h
-  exact clean_vt (exs_of_exOk h.1.1.1.2).1
+  exact clean_vt (exs_of_exOk h.1.1.1.2)
 
 theorem writeExpHistogram_spec (rid : ResId) (sid : ScopeId) (m : Metric) (ht : m.type = .exp) :
     ∀ (ps : List Point) (st : WState), (∀ p ∈ ps, p.cleanExp = true) → st.inv → Shows st.cur rid sid m →
@@ -615,9 +632,10 @@ def summaryInto (p : Point) (s : SSummary) : SSummary :=
   { count := p.count, sum := setF s.sum p.sum, quantiles := setQuantiles p.quantiles s.quantiles }
 
 theorem convSummary_eq (p : Point) (pt : SPoint) :
-    convSummary p pt = { pt with ts := p.ts, start := p.start, value := .summary (summaryInto p (summaryOld pt.value)) } := by
+    convSummary p pt = { pt with ts := p.ts, start := p.start,
+                                 value := if flagged p then .none else .summary (summaryInto p (summaryOld pt.value)) } := by
   simp only [convSummary, summaryOld, summaryInto]
-  rfl
+  split <;> rfl
 
 def summaryRecord (p : Point) (st : WState) : SRecord :=
   { st.cur with point := convSummary p st.cur.point, attrs := SAttrs.mapUnsorted p.attrs st.cur.attrs }
@@ -633,27 +651,40 @@ theorem writeSummary_cons (p : Point) (ps : List Point) (st : WState) :
 theorem summaryRecord_spec (p : Point) (st : WState) (rid : ResId) (sid : ScopeId) (m : Metric) (ht : m.type = .summary)
     (hc : p.cleanSummary = true) (hs : Shows st.cur rid sid m) :
     pointOfRecord (summaryRecord p st) = .ok (dataPoint rid sid m p).sortExAttrs := by
-  simp only [Point.cleanSummary, Bool.and_eq_true, beq_iff_eq] at hc
-  obtain ⟨hbase, hfl0⟩ := hc
-  have hat := attrs_of_base hbase
-  have hval : (convSummary p st.cur.point).value = .summary { count := p.count, sum := p.sum, quantiles := p.quantiles } := by
+  have hat := attrs_of_base (show p.base = true from hc)
+  have hfl := flags_of_clean hat.2
+  have hval : (convSummary p st.cur.point).value
+      = if flagged p then .none else .summary { count := p.count, sum := p.sum, quantiles := p.quantiles } := by
     rw [convSummary_eq]
     simp only [summaryInto, setF_eq, setQuantiles_eq]
   have ha := attrs_roundtrip p.attrs st.cur.attrs hat.1
   have hsh : Shows (summaryRecord p st) rid sid m := hs
-  have hqq : pointToOtlp m.type (summaryRecord p st).metric (summaryRecord p st).attrs (summaryRecord p st).point
-      = .ok (summaryBack p (summaryRecord p st)) := by
-    simp [pointToOtlp, ht, summaryRecord, hval, summaryBack]
-  refine pointOfRecord_of_shows _ rid sid m p _ hsh hqq ?_ ?_ ?_ ?_ ?_ ?_
-  · simpa [summaryRecord, summaryBack] using ha
-  · simp [summaryRecord, summaryBack, convSummary]
-  · simp [summaryRecord, summaryBack, convSummary]
-  · simp [summaryBack, hfl0]
-  · have e1 : pointValue m.type p = .summary p.count p.sum p.quantiles := by
-      simp [pointValue, ht, flagged, hfl0]
-    rw [e1]
-    simp [pointValue, ht, flagged, summaryBack]
-  · intro h; exact absurd ht h
+  by_cases hf : flagged p = true
+  · have hqq : pointToOtlp m.type (summaryRecord p st).metric (summaryRecord p st).attrs (summaryRecord p st).point
+        = .ok { attrs := (summaryRecord p st).attrs.toOtlp, start := (summaryRecord p st).point.start,
+                ts := (summaryRecord p st).point.ts, flags := 1 } := by
+      simp [pointToOtlp, ht, summaryRecord, hval, hf]
+    refine pointOfRecord_of_shows _ rid sid m p _ hsh hqq ?_ ?_ ?_ ?_ ?_ ?_
+    · simpa [summaryRecord] using ha
+    · simp [summaryRecord, convSummary_eq]
+    · simp [summaryRecord, convSummary_eq]
+    · simp [hfl.1 hf]
+    · rw [nrv_value _ _ rfl]; simp [pointValue, hf]
+    · intro h; exact absurd ht h
+  · have hf' : flagged p = false := by simpa using hf
+    have hqq : pointToOtlp m.type (summaryRecord p st).metric (summaryRecord p st).attrs (summaryRecord p st).point
+        = .ok (summaryBack p (summaryRecord p st)) := by
+      simp [pointToOtlp, ht, summaryRecord, hval, hf, summaryBack]
+    refine pointOfRecord_of_shows _ rid sid m p _ hsh hqq ?_ ?_ ?_ ?_ ?_ ?_
+    · simpa [summaryRecord, summaryBack] using ha
+    · simp [summaryRecord, summaryBack, convSummary_eq]
+    · simp [summaryRecord, summaryBack, convSummary_eq]
+    · simp [summaryBack, hfl.2 hf']
+    · have e1 : pointValue m.type p = .summary p.count p.sum p.quantiles := by
+        simp [pointValue, ht, hf']
+      rw [e1]
+      simp [pointValue, ht, flagged, summaryBack]
+    · intro h; exact absurd ht h
 
 theorem writeSummary_spec (rid : ResId) (sid : ScopeId) (m : Metric) (ht : m.type = .summary) :
     ∀ (ps : List Point) (st : WState), (∀ p ∈ ps, p.cleanSummary = true) → st.inv → Shows st.cur rid sid m →
